@@ -25,6 +25,16 @@ CLAIMS = {
     text='TLC checks FDImpl = textbook stencil on the one-cell extension (full matrices and affine parts) for 3 methods x 10 padding modes x n in 2..7 x pad constants x cell sides, that inadmissible lengths are refused, AdjointIsTranspose (incl. the _ADJ_METHOD/_ADJ_PADDING pairing and sign), Div = -Grad^T, derivative of the constant-padding variant = zero-padding variant, and reference laws (constants annihilated, order1/order2 exact on ramps, periodic circulant, Laplacian = forward - backward); N-d Gradient/Divergence/Laplacian on 6-14 shapes with distinct cell sides. ~6200 exported configurations are replayed on the real code (1-3 d, every axis, f32/f64/c64/c128, C/F/strided, NaN-prefilled out, operators incl. .adjoint and .derivative on uniformly weighted spaces) - ~65k real calls - and ~13.6k recorded events are validated by TLC.',
     note='Trusted: TLC; dyadic cell sides so all values are exact. "symmetric" follows code and tests (edge-inclusive mirror), "order2" = one-sided three-point edge rows. nodes_on_bdry=True / non-default weightings are left to C05 (property says "on uniformly weighted spaces").',
     ref='4/C13'),
+ 'C14': dict(
+    technique='TLA+ partition semantics over exact rationals (PartSem) with invariants checked by TLC, layer-C model of uniform_partition argument completion / index / getitem (PartitionImpl) refined against it; per-(partition, query) export replayed on real RectPartition/RectGrid/IntervalProd and constructors; TLC trace validation (Trace_Part)',
+    text='TLC enumerates every 1-d partition in the bounded space (uniform over quarter-lattice limits x n in 1..5 x 4 node placements, non-uniform, degenerate and non-dyadic vectors) and 2-d/3-d products, and checks as invariants: boundaries strictly increasing and ending at the limits, node in own cell, sizes sum to the extent, side x count = extent with the requested placement, Index = containing cell (and fractional position) for every eighth-lattice point under the tie rule, unit-step selections = selected cells, stepped selections = selected nodes + documented hull, insert/append/squeeze/byaxis, all ways of specifying a uniform partition agree, and layer C = layer A. ~40k exported (partition, query) states are replayed on the real classes and constructors (~55k calls incl. random dyadic non-uniform and beyond-bound drivers up to 17 nodes) and every call is validated by TLC.',
+    note='Trusted: TLC. Probe points exactly on cell boundaries only where all coordinates are dyadic (tie rule); "cells are exactly the selected cells" is demanded for unit-step selections only. Open finding KF-C14-3 (cell_sizes_vecs = 0 on one-node axes, documented behaviour that contradicts the statement).',
+    ref='4/C14'),
+ 'C15': dict(
+    technique='TLA+ sampling / nearest / linear / per-axis interpolation semantics (InterpSem) with laws checked by TLC, layer-C model of _find_indices and the weight/edge helpers (InterpImpl) refined against it; export replayed on real element(func)/sampling_function/point_collocation and interpolators under all calling conventions; TLC trace validation (Trace_Interp)',
+    text='TLC checks node reproduction, linear exact for affine data inside the hull, right neighbour on ties, convex weights, zero extension just outside the hull, per-axis all-nearest = nearest and Impl = reference for 1-d grids x data sets x schemes x quarter-lattice points from min-1 to max+1, 2-d and 3-d scheme mixtures, resampling and deformation cases. ~14k exported states are replayed on the real code: each abstract function supplied natively vectorised, through odl.util.vectorize, broadcasting on some coordinates, writing in place, keyword-only out, returning constants, real and complex; each interpolator called with single points, point arrays and mesh grids; float32/64, complex, integer and string data; Resampling and linear_deform on lattice data. Every call is validated by TLC; Python comparison and TLC verdict must agree event by event.',
+    note='Trusted: TLC. Beyond one edge step outside the hull linear interpolation is not compared (property silent). Integer data only claimed for nearest. Open findings KF-C15-1 (wide strings), KF-C15-3 (NumPy ufunc as 1-d in-place callable).',
+    ref='4/C15'),
  'C16': dict(
     technique='TLA+ source-map reference (ResizeSem) vs model of the slice arithmetic of resize_array/_apply_padding/_resize_discr (ResizeImpl) checked by TLC; per-configuration export replayed on real resize_array and ResizingOperator; TLC trace validation (Trace_Resize)',
     text='TLC checks ImplCorrect (slice arithmetic = reference, refusal exactly outside the documented length restrictions), AdjointIsTranspose, ExtendThenCropIsIdentity, OverlapCopied, AxisOrderIrrelevant, LinearRampLaw, ComplexAgrees and the range-geometry model for all n_in, n_out in 1..5 x offsets x 5 modes x {forward c=0, forward c=3, adjoint} in 1-d and every grow/shrink mixture with per-axis sizes 1..3 in 2-d. ~5200 exported configurations are replayed on the real code (int32/int64/float/complex, with/without out, C/F order, restricted axes, numpy.pad agreement, ResizingOperator call/adjoint/inverse via ran_shp, explicit range and default offset, adjoint identities in the weighted inner products, padding larger than the array) - ~47k real calls - and ~17k recorded events are validated by TLC.',
